@@ -414,7 +414,7 @@ E('polyexp', 'k u', fam='C', tol=8)
 E('cyclotomic', 'i:0:24 x', fam='C', tol=8)
 E('mangoldt', 'i:1:400', fam='C', tol=8)
 E('primepi', 'i:0:2000', fam='C', exact=True, c10=False, ret='other')
-E('primepi2', 'i:0:2000', fam='C', tol=8, c10=False, ret='other')
+E('primepi2', 'N:2657,9000', fam='C', tol=8, c10=False, ret='other')      # >= 2657: the branch that computes in the iv context
 E('bernfrac', 'N:40,150', fam='C', exact=True, c10=False, ret='other')
 E('eulernum', 'N:40,100', fam='C', tol=0, exact=True)
 E('eulernum', 'N:40,510', key='eulernum_exact', kw={'exact': '=1'}, fam='C', exact=True, c10=False, ret='other', cost=2)
@@ -651,6 +651,60 @@ E('pow', 'mat3 i:-2:4', op='op:pow', key='mat_pow', fam='K', tol=10, c10=False, 
 E('hilbert', 'i:1:6', fam='K', tol=4, c10=False, ret='matrix')
 E('randmatrix', 'i:1:4', fam='K', tol=0, c10=False, ret='matrix')
 E('rand', [], fam='L', tol=0, c10=False)
+
+# --- rational operands (fractions.Fraction, mpmath's mpq) and rational / string construction -----------------------------
+def _frac(r, c):
+    q = r.choice([2, 3, 3, 5, 7, 10, 12, 97, 1 << 40, 10 ** 30 + 57])
+    p = r.choice([1, -1, 2, 5, -7, 22, 355, 10 ** 20 + 1, r.randint(-10 ** 6, 10 ** 6) or 1])
+    return {'t': r.choice(['frac', 'mpq']), 'v': [p, q]}
+def _smallfrac(r, c):
+    return {'t': r.choice(['frac', 'mpq']), 'v': [r.choice([1, 1, 2, 3, -1, 5, 7]), r.choice([2, 2, 3, 4, 5, 7])]}
+def _ratstr(r, c):
+    return {'t': 'str', 'v': r.choice(['1/3', '22/7', '-5/9', '1e-5', '0.1', '3.14159265358979323846264338327950288', '2/3+1/7j',
+                                        '1.5e300', '%d/%d' % (r.randint(1, 10 ** 9), r.randint(1, 10 ** 9))])}
+for _o in ['add', 'sub', 'mul', 'truediv']:
+    E(_o, ['x', _frac], op='op:' + _o, key='op_' + _o + '_frac', fam='A', tol=2)
+    E(_o, [_frac, 'x'], op='op:' + _o, key='op_r' + _o + '_frac', fam='A', tol=2)
+    E(_o, ['z', _frac], op='op:' + _o, key='op_' + _o + '_cfrac', fam='A', tol=2)
+E('pow', ['p', _smallfrac], op='op:pow', key='op_pow_frac', fam='A', tol=4)
+E('pow', ['x', _smallfrac], op='op:pow', key='op_pow_negfrac', fam='A', tol=4)
+E('pow', ['z', _smallfrac], op='op:pow', key='op_pow_cfrac', fam='A', tol=4)
+E('mpf', [_ratstr], op='new:mpf', key='new_mpf_ratstr', fam='A', tol=0, exact=True,
+  kw={'prec': (0.3, 'i:1:300'), 'rounding': (0.3, lambda r, c: {'t': 'str', 'v': r.choice('nfcdu')})})
+E('mpc', [_ratstr], op='new:mpc', key='new_mpc_str', fam='A', tol=0, exact=True)
+# construction from numbers that are not the context's own: another context's mpf/mpc, a zero-width interval,
+# a user type with the _mpmath_ hook (all documented inputs of mpf(); the result must be rounded like any other)
+def _outsider(r, c):
+    s = mpf_spec(r, -6, 5); s['owner'] = '*'
+    return s
+def _outsider_c(r, c):
+    return {'t': 'mpc', 'v': [mpf_spec(r, -5, 4)['v'], mpf_spec(r, -5, 4)['v']], 'owner': '*'}
+def _ivpoint(r, c):
+    v = mpf_spec(r, -6, 5)['v']
+    return {'t': 'iv', 'v': [v, v]}
+def _usernum(r, c):
+    return {'t': 'mpmathobj', 'v': mpf_spec(r, -6, 5)['v']}
+_KWP = {'prec': (0.3, 'i:1:300'), 'dps': (0.15, 'i:1:60'), 'rounding': (0.3, lambda r, c: {'t': 'str', 'v': r.choice('nfcdu')})}
+E('mpf', [_outsider], op='new:mpf', key='new_mpf_outsider', fam='A', tol=0, exact=True, kw=_KWP)
+E('mpc', [_outsider, _outsider], op='new:mpc', key='new_mpc_outsider', fam='A', tol=0, exact=True)
+E('mpc', [_outsider_c], op='new:mpc', key='new_mpc_outsider_c', fam='A', tol=0, exact=True)
+E('mpf', [_ivpoint], op='new:mpf', key='new_mpf_ivpoint', fam='A', tol=0, exact=True, kw=_KWP)
+E('mpf', [_usernum], op='new:mpf', key='new_mpf_usernum', fam='A', tol=0, exact=True, kw=_KWP)
+E('mpc', [_usernum, 'x'], op='new:mpc', key='new_mpc_usernum', fam='A', tol=0, exact=True)
+def _ownmpf(r, c):
+    return mpf_spec(r, -6, 5, maxwidth=(c or {}).get('maxwidth'))      # the left operand's context rules: keep it mp's own
+for _o in ['add', 'mul']:
+    E(_o, [_ownmpf, _outsider], op='op:' + _o, key='op_' + _o + '_outsider', fam='A', tol=0, exact=True)
+    E(_o, [_ownmpf, _usernum], op='op:' + _o, key='op_' + _o + '_usernum', fam='A', tol=0, exact=True)
+E('sqrt', [_outsider], key='sqrt_outsider', fam='B', tol=2)
+E('exp', [_usernum], key='exp_usernum', fam='B', tol=2)
+E('mpmathify', [_ratstr], key='mpmathify_str', fam='A', tol=0, exact=True)
+E('fadd', ['x', _frac], key='fadd_frac', fam='L', tol=2, kw={'prec': (0.3, 'i:1:300')})
+E('fmul', ['x', _frac], key='fmul_frac', fam='L', tol=2, kw={'prec': (0.3, 'i:1:300')})
+E('power', ['p', _smallfrac], key='power_frac', fam='B', tol=4)
+E('sqrt', ['n'], key='sqrt_int', fam='B', tol=2)
+E('sqrt', ['k'], key='sqrt_negint', fam='B', tol=2)
+E('root', ['p', 'i:2:9'], key='root_real_pos', fam='B', tol=4)
 
 # --- M: public entry points that a coverage audit of dir(mp) found without an entry ------------------------------
 def _tiny(r, c):
